@@ -468,6 +468,48 @@ def rule_median(model):
     if not sorts:
         r.finding(fi.where, 'sort', 'the values are not sorted before the '
                   'median is taken', node=fi.node, ctx=fi)
+    # ... on every path: a sort statement dominates each median store that
+    # indexes the values (it precedes, in the same statement list, the
+    # statement that contains the store)
+    from ..model import parent as _parent
+
+    def is_sort_stmt(st):
+        return any(x is st.value if isinstance(st, ast.Expr) else
+                   x is st for x in sorts) if isinstance(
+                       st, (ast.Expr, ast.Assign)) else False
+
+    def dominated(node):
+        cur = node
+        while cur is not None and cur is not fi.node:
+            par = _parent(cur)
+            for fld in ('body', 'orelse', 'finalbody'):
+                lst = getattr(par, fld, None)
+                if isinstance(lst, list) and cur in lst:
+                    for st in lst[:lst.index(cur)]:
+                        if is_sort_stmt(st):
+                            return True
+            cur = par
+        return False
+    for nd, v in stores:
+        reads = any(isinstance(x, ast.Subscript) and norm(x.value) == vals
+                    for x in ast.walk(v)) or (
+            isinstance(v, ast.Name) and any(
+                isinstance(d, ast.AST) and any(
+                    isinstance(x, ast.Subscript) and norm(x.value) == vals
+                    for x in ast.walk(d))
+                for d in model.local_defs(fi, v.id)))
+        if not reads or not sorts:
+            continue
+        ok = dominated(nd)
+        r.instance(fi.where, nd, 'sorted on every path' if ok
+                   else 'SORT CAN BE SKIPPED')
+        if not ok:
+            r.finding(fi.where, f'median store not dominated by '
+                      f'{vals}.sort()', 'there is a path to the median on '
+                      'which the values were not sorted by their natural '
+                      'order (the sort is conditional): the "middle" element '
+                      'is then whatever the sequence order put there',
+                      node=nd, ctx=fi)
     n_even = 0
     work = []
     for nd, v in stores:
